@@ -21,6 +21,9 @@ EDGE = [('edge:only-function-definitions', 'function f(a) -> a + 1; function g()
         ('edge:this-is-an-ordinary-name', 'function pick(other, this) -> this; print("~\\n", pick(1, 2)); let o = object begin let v = 1; function m() -> begin let r = this.v; begin let this = 20; r <- r + this end; r + this.v end; '
          'function n(k) -> begin let this = k; this + 1 end; function p() -> begin this <- 9; this end end; print("~ ~ ~\\n", o.m(), o.n(5), o.p()); '
          'function f(this) -> begin begin let this = 7; print("~\\n", this) end; this end; print("~\\n", f(3)); let this = 4; function g() -> this + 1; print("~ ~\\n", this, g())'),
+        ('edge:null-initialised-local-in-a-loop', 'function scan(n) -> begin let i = 0; while i < n do begin let seen = null; let count = 0; if i == 1 then begin seen <- i; count <- 5 end; print("~ ~ ~\\n", i, seen, count); i <- i + 1 end; i end; '
+         'print("~\\n", scan(3)); let o = object begin function m(n) -> begin let j = 0; while j < n do begin let last = null; let flag = false; if j % 2 == 0 then begin last <- j; flag <- true end; print("~ ~ ~;", j, last, flag); j <- j + 1 end; j end end; print("~\\n", o.m(4))'),
+        ('edge:while-body-starting-with-a-while', 'let i = 0; while i < 2 do begin while i < 1 do i <- i + 1; let j = 0; while j < 2 do begin while j < 1 do j <- j + 1; j <- j + 1 end; if i > 0 then while false do 0; i <- i + 1 end; print("~\\n", i)'),
         ('edge:field-and-method-of-one-name', 'let o = object begin let value = 42; function value() -> this.value; function m() -> 1; let m = 2 end; print("~ ~ ~ ~ ~\\n", o.value, o.value(), o.m, o.m(), o)')]
 
 
